@@ -76,7 +76,7 @@ def h_construct_bad(sx, sy, m):
 
 
 KEYS_1D = [0, -1, 2, slice(None), slice(1, None), slice(None, None, -1), slice(0, 0), [0, 2], [True, False, True],
-           np.array([2, 0, 0]), Ellipsis]
+           np.array([2, 0, 0]), Ellipsis, np.array([True, False, True]), [], [False, False, False], np.array([], dtype=int)]
 KEYS_2D = [0, -1, (0, 1), (slice(None), 0), (1, slice(None)), slice(0, 1), (Ellipsis, 1),
            np.array([[True, False], [False, True]]), (np.array([0, 1]), np.array([1, 0])), None]
 
@@ -88,14 +88,13 @@ def h_getitem(shape, m):
     keys = KEYS_1D if len(shape) == 1 else KEYS_2D
     for k, key in enumerate(keys):
         ex = ey = None
-        if isinstance(key, list):
-            key = np.array(key)
+        raw = key                         # plain Python lists are handed to PixCoord as they are (numpy treats them like arrays)
         try:
-            ex, ey = x[key], y[key]
+            ex, ey = x[raw], y[raw]
         except Exception as e:  # noqa
             ex = type(e)
         try:
-            q = p[key]
+            q = p[raw]
         except Exception as e:  # noqa
             m.require(f'key #{k} {key!r:.30}: raises like numpy', ex is type(e))
             continue
